@@ -58,7 +58,7 @@ def tcpVia : DialVia := .ofFact Gen.Facts.c17TcpDialVia
 theorem facts_guard :
     Gen.Facts.c17UdpDialVia = some 0 ∧ Gen.Facts.c17TcpDialVia = some 0 ∧
     Gen.Facts.c17DialAddrShape = some true ∧ Gen.Facts.c17DialerIsNetDialer = some true ∧
-    Gen.Facts.c17FallbackWiring = some true := by decide
+    Gen.Facts.c17FallbackWiring = some true ∧ Gen.Facts.c17UdpSideReadsQueryOnly = some true := by decide
 
 /-- Whatever is configured (in particular whatever `Opt.Socks5` is), the TCP half
 connects to the endpoint the UDP half sends to: the configured server. -/
@@ -91,6 +91,105 @@ theorem untruncated_connects_nowhere (c : DialCfg) (udpNet tcpNet : Nat → Byte
 helper connects elsewhere as soon as a proxy is configured. -/
 theorem helper_would_redirect : ∃ c : DialCfg, endpoint .tcpHelper c ≠ endpoint .direct c :=
   ⟨⟨1, some 2⟩, by decide⟩
+
+/-! ## The same query, whatever the UDP side went through -/
+
+/-- Whether the UDP side only reads the caller's slice, as read from the source. -/
+def readsOnly : Bool := Gen.Facts.c17UdpSideReadsQueryOnly == some true
+
+theorem readsOnly_true : readsOnly = true := by decide
+
+/-- A UDP side that only reads the query leaves the caller's buffer as it was, for
+every sequence of failed and successful sends. -/
+theorem udp_side_keeps_query (srv : Bytes → Except Nat Bytes) (atts : List Attempt) (q : Bytes) :
+    (udpSide true srv atts q).2 = q := by
+  induction atts with
+  | nil => rfl
+  | cons a rest ih =>
+    unfold udpSide
+    cases a.writeOk with
+    | false => simpa using ih
+    | true =>
+      simp only [if_true]
+      cases srv (setId a.hi a.lo q) <;> rfl
+
+/-- With the buffer as state the exchange is the stateless one over the UDP side's outcome:
+the theorems above (about the regenerated `udpWithFallbackExchange`) apply to it. -/
+theorem exchangeBuf_is_exchange (srv tcp : Bytes → Except Nat Bytes) (atts : List Attempt) (q : Bytes) :
+    (exchangeBuf readsOnly srv tcp atts q).1 =
+      (Gen.udpWithFallbackExchange (fun b => (udpSide true srv atts b).1) tcp q).1 := by
+  rw [Refine.C17.exchange_eq, readsOnly_true]
+  unfold exchangeBuf exchange
+  have hk := udp_side_keeps_query srv atts q
+  cases h : udpSide true srv atts q with
+  | mk res b =>
+    rw [h] at hk
+    simp only at hk
+    subst hk
+    simp only [h]
+    cases res with
+    | error e => rfl
+    | ok r => cases ht : tcBit r <;> simp [ht]
+
+/-- After any number of failed sends (any ids the dead sockets assigned), a truncated reply
+makes exactly the caller's query go to TCP, the TCP outcome is the caller's, and the
+caller's buffer is what it was. -/
+theorem same_query_after_failed_sends (srv tcp : Bytes → Except Nat Bytes) (atts : List Attempt) (q r : Bytes)
+    (hu : (udpSide readsOnly srv atts q).1 = .ok r) (htc : tcBit r = true) :
+    exchangeBuf readsOnly srv tcp atts q = (tcp q, some q, q) := by
+  rw [readsOnly_true] at hu ⊢
+  have hk := udp_side_keeps_query srv atts q
+  unfold exchangeBuf
+  cases h : udpSide true srv atts q with
+  | mk res b =>
+    rw [h] at hk hu
+    simp only at hk hu
+    subst hk hu
+    simp [htc]
+
+/-- ... and a reply without TC comes back with no TCP frame and the buffer unchanged. -/
+theorem untruncated_after_failed_sends (srv tcp : Bytes → Except Nat Bytes) (atts : List Attempt) (q r : Bytes)
+    (hu : (udpSide readsOnly srv atts q).1 = .ok r) (htc : tcBit r = false) :
+    exchangeBuf readsOnly srv tcp atts q = (.ok r, none, q) := by
+  rw [readsOnly_true] at hu ⊢
+  have hk := udp_side_keeps_query srv atts q
+  unfold exchangeBuf
+  cases h : udpSide true srv atts q with
+  | mk res b =>
+    rw [h] at hk hu
+    simp only at hk hu
+    subst hk hu
+    simp [htc]
+
+/-- A reply the UDP side returns carries the id of the caller's query. -/
+theorem udp_reply_has_caller_id (srv : Bytes → Except Nat Bytes) (atts : List Attempt) (q r : Bytes)
+    (hu : (udpSide true srv atts q).1 = .ok r) : idOf r = idOf q := by
+  induction atts with
+  | nil => simp [udpSide] at hu
+  | cons a rest ih =>
+    unfold udpSide at hu
+    cases hw : a.writeOk with
+    | false => rw [hw] at hu; simp only [Bool.false_eq_true, if_false, if_true] at hu; exact ih hu
+    | true =>
+      rw [hw] at hu
+      simp only [if_true] at hu
+      cases hs : srv (setId a.hi a.lo q) with
+      | error e => rw [hs] at hu; simp at hu
+      | ok x =>
+        rw [hs] at hu
+        simp only [Except.ok.injEq] at hu
+        subst hu
+        rfl
+
+/-- What the guard on `c17UdpSideReadsQueryOnly` excludes: with the id patched in place and
+not undone after a failed write, one failed send is enough for a different frame to reach TCP. -/
+theorem in_place_patch_breaks_same_query :
+    ∃ (atts : List Attempt) (q : Bytes),
+      (exchangeBuf false (fun w => .ok (w.take 2 ++ [0x82, 0])) (fun b => .ok b) atts q).2.1 ≠ some q :=
+  ⟨[⟨0, 3, false⟩, ⟨0, 0, true⟩], [0xbe, 0xef, 1, 0], by decide⟩
+
+example : exchangeBuf readsOnly (fun w => .ok (w.take 2 ++ [0x82, 0])) (fun b => .ok b)
+    [⟨0, 3, false⟩, ⟨0, 0, true⟩] [0xbe, 0xef, 1, 0] = (.ok [0xbe, 0xef, 1, 0], some [0xbe, 0xef, 1, 0], [0xbe, 0xef, 1, 0]) := by rfl
 
 /-! Non-vacuity -/
 example : exchangeRouted Gen.udpWithFallbackExchange udpVia tcpVia ⟨1, some 2⟩
